@@ -79,8 +79,24 @@ class C19(Check):
                     v.setdefault("pdo_size", v["size"])
                     twins[k] = len(vars_)
                     vars_.append(dict(v, size=rng.choice(cands), twin_of=k))
+        # two CHANNELS: a second instance of the same Struct class (another offset) on the same terminal, both linked to the one
+        # device as whole structures and read through the same member
+        chans = {}
+        for k in range(nv):
+            v = vars_[k]
+            if v["via_struct"] and not v.get("process") and k not in twins and rng.random() < 0.4:
+                need = 1 if isinstance(v["size"], int) else SIZE[v["size"]]
+                offs = [o_ for o_ in range(0, terms[v["term"]][v["sm"]] - v["pos"] - need + 1) if o_ != v["struct_off"]]
+                if offs:
+                    v["chan"] = True
+                    chans[k] = len(vars_)
+                    vars_.append(dict(v, struct_off=rng.choice(offs), chan_of=k))
         for _ in range(rng.randint(1, 6)):
             k = rng.randrange(nv)
+            if k in chans:
+                order = [k, chans[k]] if rng.random() < 0.5 else [chans[k], k]
+                stmts += [["rd", order[0]], ["rd", order[1]]]
+                continue
             if k in twins:
                 # both members are read, in either order
                 order = [k, twins[k]] if rng.random() < 0.5 else [twins[k], k]
@@ -128,6 +144,7 @@ class C19(Check):
             rig = Rig(specs, ec_class=FastEtherCat)
             rig.connect()
             # terminal classes with the case's PacketDescs (directly or inside a Struct with offsets)
+            struct_classes = {}
             for ti, t in enumerate(rig.terms):
                 ns = {}
                 for k, v in enumerate(case["vars"]):
@@ -153,14 +170,17 @@ class C19(Check):
                         else:
                             ns[f"p{k}"] = pd
                     elif v["via_struct"]:
-                        S = type(f"S{k}", (Struct,), {"m": PacketDesc(SM[v["sm"]], v["pos"], v["size"])})
+                        if v.get("chan_of") is not None:
+                            S = struct_classes[v["chan_of"]]
+                        else:
+                            S = struct_classes[k] = type(f"S{k}", (Struct,), {"m": PacketDesc(SM[v["sm"]], v["pos"], v["size"])})
                         ns[f"s{k}"] = S(*offsets(v))
                     else:
                         ns[f"p{k}"] = PacketDesc(SM[v["sm"]], v["pos"] + v["struct_off"], v["size"])
                 t.__class__ = type(f"T{ti}", (type(t),), ns)
 
             def whole(k):
-                if any(w.get("twin_of") == k for w in case["vars"]):
+                if any(w.get("twin_of") == k for w in case["vars"]) or case["vars"][k].get("chan"):
                     return True
                 return case["vars"][k]["via_struct"] and all(s[0] == "rd" for s in case["stmts"] if s[1] == k) and k % 2 == 0
 
